@@ -200,3 +200,65 @@ func init() {
 		c.R.Count("tagsqueue", true, "tags-queue")
 	}
 }
+
+// C08 with a Config.SupportedCaps map that the application re-uses for several clients (a Config template): what one
+// client's configuration adds to its supported set (sasl, sts) must not leak into the other's, and the application's map
+// must come back unchanged.
+func init() {
+	runners["capsharedconfig"] = func(c *Ctx, in map[string]string) {
+		hin := hexIn(in)
+		shared := map[string][]string{"example.org/custom": nil}
+		negotiate := func(cfg girc.Config, adv string) (reqs []string, ok bool) {
+			cl := girc.New(cfg)
+			cli, srv := net.Pipe()
+			ret := make(chan error, 1)
+			go func() { ret <- cl.MockConnect(cli) }()
+			rd := bufio.NewReader(srv)
+			defer func() {
+				cl.Close()
+				srv.Close()
+				select {
+				case <-ret:
+				case <-time.After(5 * time.Second):
+				}
+			}()
+			for {
+				srv.SetReadDeadline(time.Now().Add(3 * time.Second))
+				l, err := rd.ReadString('\n')
+				if err != nil {
+					return reqs, false
+				}
+				l = strings.TrimRight(l, "\r\n")
+				switch {
+				case strings.HasPrefix(l, "CAP LS"):
+					srv.SetWriteDeadline(time.Now().Add(2 * time.Second))
+					srv.Write([]byte(":srv CAP * LS :" + adv + "\r\n"))
+				case strings.HasPrefix(l, "CAP REQ :"):
+					return strings.Fields(strings.TrimPrefix(l, "CAP REQ :")), true
+				case l == "CAP END":
+					return nil, true
+				}
+			}
+		}
+		adv := "multi-prefix sasl=PLAIN sts=port=6697 example.org/custom"
+		first := girc.Config{Server: "irc.example.org", Port: 6667, Nick: "a", User: "a", Name: "a", AllowFlood: true, SupportedCaps: shared,
+			SASL: &girc.SASLPlain{User: "u", Pass: "p"}}
+		second := girc.Config{Server: "irc.example.org", Port: 6667, Nick: "b", User: "b", Name: "b", AllowFlood: true, SupportedCaps: shared, DisableSTS: true}
+		r1, ok1 := negotiate(first, adv)
+		r2, ok2 := negotiate(second, adv)
+		if !ok1 || !ok2 {
+			c.R.Mismatch("capsharedconfig.session", hin, fmt.Sprintf("ok1=%v ok2=%v", ok1, ok2), "")
+			return
+		}
+		sort.Strings(r1)
+		sort.Strings(r2)
+		for _, t := range r2 {
+			if t == "sasl" || t == "sts" {
+				c.R.Violation("c08.req_not_configured", hin, fmt.Sprintf("second client (no SASL, DisableSTS) requested %v (first client: %v)", r2, r1), "no sasl, no sts",
+					"the client requests only capabilities it supports by default or by ITS configuration (sasl only with SASL configured, sts only with STS enabled)")
+				break
+			}
+		}
+		c.R.Count("capsharedconfig", true, "cap-shared-config")
+	}
+}
